@@ -205,7 +205,8 @@ impl Cursor<'_> {
                             e,
                         ))
                     }
-                    _ => return Ok(self.ident()?),
+                    // Not a number: the whole token (from its first character) is an identifier
+                    _ => return Ok(self.ident_from(start - prefix)?),
                 },
             },
         };
@@ -279,6 +280,11 @@ impl Cursor<'_> {
 
     fn ident(&mut self) -> Result<TokenKind> {
         let ident_start = self.abs_pos() - 1;
+        self.ident_from(ident_start)
+    }
+
+    /// Identifier which started at byte offset `ident_start` (must be a character boundary).
+    fn ident_from(&mut self, ident_start: usize) -> Result<TokenKind> {
         self.take_while(is_id);
         let ident = self
             .get_range(ident_start..self.abs_pos())
